@@ -5,6 +5,7 @@ import (
 	"math/rand"
 	"os"
 	"path/filepath"
+	"regexp"
 	"regexp/syntax"
 	"strings"
 	"unicode"
@@ -252,6 +253,23 @@ func c05CheckRule(c *core.Ctx, text string, walks int, useMatch bool) {
 	c05CheckOne(c, text, walks, useMatch)
 }
 
+// hostOfCandidate returns the host part of a URL-like string, or "".
+func hostOfCandidate(u string) string {
+	i := strings.Index(u, "://")
+	if i < 0 {
+		return ""
+	}
+	h := u[i+3:]
+	if j := strings.IndexAny(h, "/?#:"); j >= 0 {
+		h = h[:j]
+	}
+	if h == "" || len(h) > 200 || strings.ContainsAny(h, " \n\t") {
+		return ""
+	}
+
+	return h
+}
+
 func c05CheckOne(c *core.Ctx, text string, walks int, useMatch bool) {
 	r, err := rules.NewNetworkRule(text, 1)
 	if err != nil {
@@ -364,6 +382,59 @@ func c05CheckOne(c *core.Ctx, text string, walks int, useMatch bool) {
 			}
 		}
 	}
+	// The same relation on whole requests, with the rule's own two tests (hooks
+	// VerifMatchPattern / VerifMatchShortcut): whatever the rule applies its
+	// pattern to for a kind of request (URL requests, hostname requests made by
+	// either constructor), the pre-check must let every accepted request through.
+	if len(candidates) > 0 {
+		hosts := map[string]bool{}
+		for _, u := range candidates[:min(len(candidates), 12)] {
+			if h := hostOfCandidate(u); h != "" {
+				hosts[h] = true
+			}
+		}
+		for _, h := range regexp.MustCompile(`[A-Za-z0-9-]+(\.[A-Za-z0-9-]+)+`).FindAllString(pattern, 3) {
+			hosts[h] = true
+			hosts["sub."+h] = true
+		}
+		var reqs []*rules.Request
+		for _, u := range candidates[:min(len(candidates), 6)] {
+			if !strings.ContainsAny(u, "\n") {
+				reqs = append(reqs, rules.NewRequest(u, "", rules.TypeOther))
+			}
+		}
+		for h := range hosts {
+			// (the hostname constructors take lower-case names: validation and
+			// normalisation are the caller's, as the DNS engine's callers do)
+			h = strings.ToLower(h)
+			reqs = append(reqs, rules.NewRequestForHostname(h))
+			reused := rules.NewRequest("https://other.example.net/x", "https://source.example/", rules.TypeScript)
+			rules.FillRequestForHostname(reused, h)
+			reqs = append(reqs, reused)
+		}
+		for _, req := range reqs {
+			var acc, pre bool
+			w2 := w
+			w2.URL = req.URL
+			if c.Guard("pattern-and-shortcut-tests", nil, w2, func() { acc, pre = rules.VerifMatchPattern(r, req), rules.VerifMatchShortcut(r, req) }) {
+				break
+			}
+			c.Eval(1)
+			if acc {
+				c.Event("requests_accepted_by_the_pattern_test", 1)
+				if req.IsHostnameRequest {
+					c.Event("hostname_requests_accepted_by_the_pattern_test", 1)
+				}
+			}
+			if acc && !pre {
+				c.Violation("precheck-rejects-request-the-pattern-accepts", nil, w2,
+					"rule %q: its pattern test accepts the request (url %q, hostname request: %v) but its shortcut pre-check (shortcut %q) rejects it", text, req.URL, req.IsHostnameRequest, r.Shortcut)
+
+				break
+			}
+		}
+	}
+
 	// Requests longer than the URL length cap: whatever part of the URL the rule
 	// is matched against (the request's own URL field), a compiled pattern that
 	// accepts it must not be vetoed by the pre-check.
